@@ -118,10 +118,12 @@ theorem monUp_fires (s : St) (h : Nat) (hp : s.preimage = true) (hu : s.up = .pe
   cases hb : s.upBroadcast <;> simp [hp, hu, hh, hb]
 
 theorem reannounce_noop (s : St) (h : Nat) (x : BbuExit) (c t : Bool) (hb : s.monBest = h)
-    (hc : (s.inCell && holdingCellTimedOut h s.outCltv) = false) : nodeStep s (.block h x c t) = (s, []) := by
+    (hc : (s.inCell && holdingCellTimedOut h s.outCltv) = false)
+    (hi : (s.intercepted && interceptTimedOut h s.outCltv) = false) : nodeStep s (.block h x c t) = (s, []) := by
   unfold nodeStep
   have : monitorProcessesHeight h s.monBest = false := by simp [monitorProcessesHeight, hb]
-  simp only [this, mgr_no_cell s h x hc]
+  have h2 : mgrIntercept s h = (s, []) := by unfold mgrIntercept; simp [hi]
+  simp only [this, mgr_no_cell s h x hc, h2]
   rfl
 
 theorem monTxs_fields (s : St) (h : Nat) (c t : Bool) : (monTxs s h c t).downOpen = s.downOpen ∧ (monTxs s h c t).inCltv = s.inCltv := by
